@@ -19,6 +19,7 @@ CONSTANTS
   KFInitOpts = FALSE
   KFV1Hist = FALSE
   PreT = {4}
+  TSActs = {"Commit"}
   Balanced = FALSE
   MaxOps = 6
   EmitMode = "all"
